@@ -193,7 +193,7 @@ theorem rawDecs_only_by_raw_paths (s s' : St) (e : Ev) (h : step s e = some s') 
       ((∃ c, e = .poll c ∧ s.waits = true) ∨ (∃ c, e = .pNone c) ∨ (∃ c, e = .dropFut c))) := by
   cases e <;>
     simp only [step, stepClone, stepOpStart, stepDrop, stepDropCheck, stepDropDec, stepTryUnwrap, stepTake,
-      stepClose, stepPoll, stepPSwap, stepMicro, stepDropFut] at h <;>
+      stepClose, stepPoll, stepPSwap, stepMicro, stepDropFut, stepSetWaker] at h <;>
     (repeat' split at h) <;>
     (try cases h) <;>
     (try subst_vars) <;>
@@ -206,6 +206,120 @@ theorem rawDecs_only_by_raw_paths (s s' : St) (e : Ev) (h : step s e = some s') 
       | (right; simp; done)
       | (by_cases hw : s.waits = true <;> by_cases h1 : s.count = 1 <;> simp [hw, h1]; done)
       | trace_state)
+
+/-! ## 2a. Waker identity: the task that is woken is the task that is waiting
+
+The pending `take()`/`close()` future may change hands between polls (`setWaker c w`: handed to a
+spawned task, polled through a `select`/`timeout` wrapper): every poll supplies its own waker. -/
+
+/-- Both builds, every interleaving (split drops, interleaved polls): whenever the closer is parked and
+the slot holds its waker, that waker is the one supplied by the poll that parked it — its latest poll.
+(`register` on every poll that finds the descriptor shared; a stale waker from an earlier poll never
+survives a later park.) -/
+theorem slot_holds_latest_waker (b : Bool) (evs : List Ev) (s : St) (h : run (init b) evs = some s)
+    (c : Nat) (hc : s.parked c) (hs : s.slot = some c) : s.slotW = wOf s.parkedW c :=
+  (sinv_run (sinv_init b) h).s1 c hc hs
+
+/-- the ghost `parkedW` is what its name says: a poll that parks records the waker that poll was given -/
+theorem poll_parks_with_its_waker (s s' : St) (c : Nat) (h : step s (.poll c) = some s')
+    (hp : s'.parked c) : wOf s'.parkedW c = wOf s.nextW c := by
+  have key : ∀ t : St, t.nextW = s.nextW → (pollBody t c).parked c → wOf (pollBody t c).parkedW c = wOf s.nextW c := by
+    intro t ht hpk
+    unfold pollBody at hpk ⊢
+    split
+    · next h1 =>
+      rw [if_pos h1] at hpk
+      unfold St.parked at hpk
+      simp at hpk
+      by_cases hlt : c < t.actors.length
+      · simp [hlt] at hpk
+      · have : (t.actors.set c (Role.closer .doneSome))[c]? = none := by simp; omega
+        simp [this] at hpk
+    · simp [wOf_cons_self, ht]
+  simp only [step, stepPoll] at h
+  split at h
+  · cases h
+    unfold firstPoll at hp ⊢
+    split
+    · next hw =>
+      rw [if_pos hw] at hp
+      unfold St.parked loseNone at hp
+      simp at hp
+      by_cases hlt : c < s.actors.length
+      · simp [hlt] at hp
+      · have : (s.actors.set c (Role.closer .doneNone))[c]? = none := by simp; omega
+        simp [this] at hp
+    · next hw => rw [if_neg hw] at hp; exact key _ rfl hp
+  · cases h
+    unfold firstPoll at hp ⊢
+    split
+    · next hw =>
+      rw [if_pos hw] at hp
+      unfold St.parked loseNone at hp
+      simp at hp
+      by_cases hlt : c < s.actors.length
+      · simp [hlt] at hp
+      · have : (s.actors.set c (Role.closer .doneNone))[c]? = none := by simp; omega
+        simp [this] at hp
+    · next hw => rw [if_neg hw] at hp; exact key _ rfl hp
+  · cases h; exact key _ rfl hp
+  · cases h
+
+/-- Single-threaded build: a pending wake-up of a parked closer was delivered to the waker of its latest poll. -/
+theorem pending_wake_is_for_latest_waker (b : Bool) (evs : List Ev) (s : St)
+    (hev : ∀ e ∈ evs, e.unsync = true) (h : run (init b) evs = some s) (c : Nat)
+    (hc : s.parked c) (hw : c ∈ s.woken) : (c, wOf s.parkedW c) ∈ s.wokenW :=
+  (allinv_run (inv_init b) (uinv_init b) (sinv_init b) (vinv_init b) hev h).2.2.2.v2 c hc hw
+
+/-- Single-threaded build, bounded progress with identity: when the last other holder drops, the waker
+that has a wake-up pending afterwards is the one the closer's LATEST poll supplied — the task currently
+awaiting `close()` is the one woken, also when the future changed hands between polls. -/
+theorem last_drop_wakes_latest_waker (b : Bool) (evs : List Ev) (s : St)
+    (hev : ∀ e ∈ evs, e.unsync = true) (h : run (init b) evs = some s) (c x : Nat)
+    (hc : s.parked c) (h2 : s.count = 2)
+    (hx : s.actors[x]? = some (.handle .live) ∨ s.actors[x]? = some (.op .live)) :
+    ∃ s1, step s (.drop x) = some s1 ∧ s1.parked c ∧ (c, wOf s1.parkedW c) ∈ s1.wokenW := by
+  obtain ⟨hi, hu, hs, hv⟩ := allinv_run (inv_init b) (uinv_init b) (sinv_init b) (vinv_init b) hev h
+  have hw2 := hu.w2 c hc
+  have hwaits := hu.w3 c hw2.1
+  have hxc : x ≠ c := by
+    intro hxc
+    subst hxc
+    unfold St.parked at hc
+    rcases hx with hx | hx <;> simp [hx] at hc
+  have hstep : step s (.drop x) = some (decRef (setRole (dropTest s) x .gone)) := by
+    rcases hx with hx | hx <;> simp [step, stepDrop, hx]
+  refine ⟨_, hstep, ?_, ?_⟩
+  · unfold St.parked at hc ⊢
+    simp
+    rw [getElem?_set_ne' _ _ _ _ hxc]
+    exact hc
+  · simp only [decRef_wokenW, setRole_wokenW, decRef_parkedW, setRole_parkedW, dropTest_parkedW]
+    unfold dropTest wake
+    simp only [h2, hwaits, and_self, if_true]
+    cases hsl : s.slot with
+    | none =>
+      simp only
+      rcases hw2.2 with h3 | h3
+      · rw [hsl] at h3; cases h3
+      · exact hv.v2 c hc h3
+    | some c0 =>
+      simp only [List.mem_cons]
+      have : c0 = c := by
+        have := hu.w1 c0 hsl
+        rw [hw2.1] at this
+        simpa using this.symm
+      subst this
+      left
+      rw [hs.s1 c0 hc hsl]
+
+/-- non-vacuity: the future changes hands twice; the last drop wakes waker 2, the latest one -/
+example : ∃ s, run (init false)
+    [.clone 0, .take 0, .setWaker 0 1, .poll 0, .setWaker 0 2, .poll 0, .drop 1] = some s ∧
+    s.parked 0 ∧ s.count = 1 ∧ s.wakeLog = [(0, 2)] ∧ wOf s.parkedW 0 = 2 := by
+  refine ⟨_, rfl, ?_⟩
+  unfold St.parked
+  decide
 
 /-! ## 2b. The one-step events are schedules of the split ones
 
